@@ -26,6 +26,16 @@ loglogit included), the per-alternative loop (one call per alternative with a co
 alternatives), thorough: every triple over 4-6 entry points, loop + call, all permutations.  Every expression is evaluated
 after all the calls of its history were made and must satisfy the same clauses (nothing else is demanded of a history).
 
+Evaluation entry points: the engine on a database (all of the above), and - for formulas that hold no data variable
+(utilities as numbers / Numeric / fixed or free Betas / Beta + Numeric, constant or absent availabilities, constant choice) -
+Expression.get_value() (the pure-Python evaluator of every expression class, LogLogit.get_value for the logit kernel) and
+Expression.get_value_c() without a database; one expression re-evaluated after Expression.change_init_values included.
+The common level of the utilities is part of the alphabet: small shifts everywhere; levels beyond the range of exp()
+(+-725 ... +-5000) for the models that are a logit kernel on the given terms (logit / loglogit, mev / logmev on hand-supplied
+ln G_i) through the engine and through both evaluators; moderate levels (|level| <= 75) for the nested / cross-nested
+formulas through the evaluators.  Ordered models without a database as well (get_value: ordered_logit only, the Python
+evaluator has no normal CDF).
+
 Oracle per (utility vector, availability pattern): every probability in [0,1]; zero when unavailable; sum = 1;
 equal to the textbook closed form (vf.ref_mev: own G(y), closed form cross-checked with dual numbers; it never
 imports biogeme); unchanged when one constant is added to all utilities; log model == ln(probability model).
@@ -45,14 +55,19 @@ ID = 'C05'
 LEVEL = 'exploration'
 TECHNIQUE = ('bounded exhaustive enumeration of nest structures x nest/scale parameter grids x availability patterns x '
              'utility grids x expression forms, each evaluated by the real engine and compared with closed-form MEV / '
-             'ordered probabilities from an independent plain-Python reference')
+             'ordered probabilities from an independent plain-Python reference; the same enumeration for formulas without data '
+             'variables through Expression.get_value (Python evaluator) and Expression.get_value_c() without a database, with '
+             'common utility levels beyond the range of exp()')
 RULE = ('one case = one (model, expression forms, nest structure, parameter assignment, availability pattern) evaluated on the '
         'whole utility grid (every utility vector x every chosen alternative x every shift is one compared probability '
         'vector, counted in evaluations). Non-trivial: at least two alternatives available, and for nested / cross-nested / '
         'user-MEV models additionally a nest with parameter != scale holding >= 2 available alternatives (so that the MEV '
         'probabilities differ from logit); ordered models: every (K, thresholds) point. distinct = distinct such keys. '
         'Histories: one case = one evaluated call of one history (sequence of entry points called with one set of argument '
-        'objects) x availability pattern, same non-triviality rule, the history is part of the key.')
+        'objects) x availability pattern, same non-triviality rule, the history is part of the key. Evaluations without a database: '
+        'one case = one (model, forms, structure, parameters, availability pattern, evaluator) evaluated on every utility vector x '
+        'chosen alternative x shift / level (one expression built and evaluated per probability); same non-triviality rule, the '
+        'evaluator is part of the key.')
 ASSUMPTIONS = [
     'continuous domains (utilities, nest parameters, scale, alpha, thresholds) are covered at the grid points of the '
     'per-seed alphabets only (5 alphabets; utilities in [-3, 3.2] plus common shifts up to |12|)',
@@ -74,6 +89,17 @@ ASSUMPTIONS = [
     'the reference (vf/ref_mev.py) is the trusted base: textbook nested / generalised nested logit closed forms with '
     'alpha^(mu_m/mu), cross-checked in every task against forward-mode differentiation of its own G(y)',
     'comparison tolerance: relative 1e-10 + absolute 1e-12 (shift invariance: relative 1e-9)',
+    'large common levels (4 per alphabet, |level| in [725, 5000]) only for the logit kernel on given terms (logit, loglogit, mev / '
+    'logmev with hand-supplied ln G_i, whose values at a level follow from the homogeneity of G - checked against the direct '
+    'computation at the small shifts); the nested / cross-nested formulas exponentiate mu_m V as written and are taken to '
+    'moderate levels only (2 per alphabet, |level| <= 75, nest parameter x scale x |V| < 400); the closed form at a level is '
+    'the one of the unshifted utilities (the level enters as the floating-point sum u + level, error <= 1e-12 relative)',
+    'evaluation without a database (Expression.get_value, Expression.get_value_c()): formulas without data variables, forms '
+    'sweep of 8 (utility form, availability form, choice form, shared argument objects) combinations; logit: all 8 forms, full '
+    'utility grid; user MEV: 2 forms (quick) / 8; nested: every J <= 3 structure x 2 (quick) / 4 forms incl. the backward-'
+    'compatible names and ln G_i helpers; CNL (2 nests): every J=2 structure, every fourth (quick) / every J=3 one-split '
+    'structure; get_value_c() on a rotating subset (quick) of these; ordered_probit has no Python evaluator '
+    '(bioNormalCdf.get_value is not implemented): counted as skipped, not demanded',
     'ordered probit: the main grid keeps value - threshold < 6 because the external engine normal CDF is wrong above 6 '
     '(separate tail task, known finding); closed forms in that tail are not compared',
 ]
@@ -503,7 +529,11 @@ def key_tail(spec):
     h = spec.get('hist')
     if h and h.get('later'):
         return HIST_TAG
-    return f'{shape_of(spec)}|{forms_tag(spec)}{evaluator_tag(spec)}'
+    if spec.get('evaluator'):
+        # evaluation without a database: the expression tree is the one the engine gets (a defect of a model function
+        # shows under the engine keys); what is specific here is the evaluator, whose defects show in every structure
+        return evaluator_tag(spec)[1:]
+    return f'{shape_of(spec)}|{forms_tag(spec)}'
 
 
 def evaluator_tag(spec):
@@ -514,10 +544,11 @@ def evaluator_tag(spec):
 
 def key_model(spec):
     """model part of the finding key: the entry point; for a later call of a history the family of the entry point
-    (a side effect of one call shows in every entry point called afterwards: one defect, a handful of keys)"""
+    (a side effect of one call shows in every entry point called afterwards: one defect, a handful of keys); the family
+    as well for an evaluation without a database (a defect of an evaluator shows in every entry point)"""
     m = spec['model']
     h = spec.get('hist')
-    if not (h and h.get('later')):
+    if not (h and h.get('later')) and not spec.get('evaluator'):
         return m
     if m in ('logit', 'loglogit'):
         return 'logit-family'
@@ -682,7 +713,9 @@ def run_family(base_spec, models, table, rec, extra_cols=None, log_gi_groups=Non
             if isinstance(e, RuntimeError):
                 rec.retire = True       # engine errors are sticky (DESIGN 3.1)
             grp = table.describe_group(0)
-            rec.violation(f'{ID}|model-raises-{type(e).__name__}|{model}|{shape_of(spec)}|{forms_tag(spec)}{evaluator_tag(spec)}',
+            rkey = (f'{ID}|model-raises-{type(e).__name__}|{key_model(spec)}|{key_tail(spec)}' if spec.get('evaluator') else
+                    f'{ID}|model-raises-{type(e).__name__}|{model}|{shape_of(spec)}|{forms_tag(spec)}')
+            rec.violation(rkey,
                           f'{model} raised {type(e).__name__}: {str(e)[:300]} for a valid specification (alts {table.alts}, '
                           f'alone={spec.get("alone")} nests={spec.get("nests")} mus={spec.get("mus")} mu={spec.get("mu")})',
                           dict(part='spec', spec=spec, group=grp, base=grp), expected='a probability', observed=repr(e)[:300])
@@ -770,6 +803,9 @@ def tasks(tier, seed):
     for J in range(2, Jmax + 1):
         t.append(dict(part='levels', J=J, seed=seed, tier=tier))
     t += pyeval_tasks(alph, tier, seed)
+    for K in (2, 3, 4):
+        for ev in ('py', 'c0'):
+            t.append(dict(part='ordered_nodb', K=K, ev=ev, seed=seed, tier=tier))
     return t
 
 
@@ -810,6 +846,8 @@ def run_task(task):
         _part_levels(task, alph, rec)
     elif part == 'pyeval':
         _part_pyeval(task, alph, rec)
+    elif part == 'ordered_nodb':
+        _part_ordered_nodb(task, alph, rec)
     else:
         raise ValueError(part)
     return rec.result()
@@ -1647,18 +1685,43 @@ def eval_ordered(model, cats, xs, t1, ds, vform='var'):
     return out
 
 
-def check_ordered(model, cats, xs, t1, ds, rec, vform='var', tail=False):
+def eval_ordered_nodb(model, cats, xs, t1, ds, vform, ev):
+    """The same without a database: the continuous value is a Numeric (or a Beta times a Numeric), the thresholds are the
+    values of the Betas (Expression.change_init_values); ev = 'py' (get_value) | 'c0' (get_value_c())."""
+    import warnings
+    import numpy as np
+    from biogeme import models
+    from biogeme.expressions import Numeric, Beta
+    betas = {'tau_o': float(t1)}
+    for c, d in zip(cats[1:-1], ds):
+        betas[f'tau_o_diff_{c}'] = float(d)
+    out = {}
+    with np.errstate(all='ignore'), warnings.catch_warnings():
+        warnings.simplefilter('ignore')
+        for x in xs:
+            tau = Beta('tau_o', 0.0, None, None, 0)
+            val = Numeric(float(x)) if vform == 'var' else Beta('b_scale', 1.0, None, None, 0) * Numeric(float(x))
+            for c, e in getattr(models, model)(val, list(cats), tau).items():
+                e.change_init_values(betas)
+                out.setdefault(c, []).append(float(e.get_value()) if ev == 'py' else float(e.get_value_c(prepare_ids=True)))
+    return {c: np.asarray(v, dtype=float) for c, v in out.items()}
+
+
+def check_ordered(model, cats, xs, t1, ds, rec, vform='var', tail=False, ev=None):
     import numpy as np
     cdf = R.logistic_cdf if model == 'ordered_logit' else R.normal_cdf
     taus = [t1]
     for d in ds:
         taus.append(taus[-1] + d)
-    got = eval_ordered(model, cats, xs, t1, ds, vform)
+    got = eval_ordered(model, cats, xs, t1, ds, vform) if not ev else eval_ordered_nodb(model, cats, xs, t1, ds, vform, ev)
     K = len(cats)
     case = dict(part='ordered', model=model, cats=list(cats), xs=None, t1=t1, ds=list(ds), vform=vform, tail=tail)
+    if ev:
+        case['ev'] = ev
+    evt = f':evaluator={EVALUATOR_NAMES[ev]}' if ev else ''
     nbad = 0
     if sorted(got) != sorted(cats):
-        rec.violation(f'{ID}|ordered-categories-missing|{model}:K={K}', f'{model} returned categories {sorted(got)} for {cats}',
+        rec.violation(f'{ID}|ordered-categories-missing|{model}:K={K}{evt}', f'{model} returned categories {sorted(got)} for {cats}',
                       dict(case, xs=list(xs)))
         return
     for r, x in enumerate(xs):
@@ -1671,20 +1734,23 @@ def check_ordered(model, cats, xs, t1, ds, rec, vform='var', tail=False):
             if model == 'ordered_probit' and zmax >= 6.0:
                 key = TAIL_KEY
             else:
-                key = f'{ID}|probability-outside-unit-interval|{model}:K={K}:z<6'
+                key = f'{ID}|probability-outside-unit-interval|{model}:K={K}:z<6{evt}'
             rec.violation(key, f'{model}({cats}) at value {x}, thresholds {taus}: probabilities {P} leave [0,1] '
                                f'(largest value - threshold = {zmax})', c1, expected='0 <= P <= 1', observed=P)
             nbad += 1
         elif not tail:
             if not abs(sum(P) - 1.0) <= 1e-10:
-                rec.violation(f'{ID}|probabilities-do-not-sum-to-one|{model}:K={K}', f'{model} at {x}, thresholds {taus}: sum {sum(P)}',
+                rec.violation(f'{ID}|probabilities-do-not-sum-to-one|{model}:K={K}{evt}', f'{model} at {x}, thresholds {taus}: sum {sum(P)}',
                               c1, expected=1.0, observed=P)
                 nbad += 1
             elif not all(R.close(p, q, REL, ABS) for p, q in zip(P, ref)):
-                rec.violation(f'{ID}|differs-from-closed-form|{model}:K={K}', f'{model}({cats}) at value {x}, cumulated thresholds '
+                rec.violation(f'{ID}|differs-from-closed-form|{model}:K={K}{evt}', f'{model}({cats}) at value {x}, cumulated thresholds '
                               f'{taus}: {P} instead of {ref}', c1, expected=ref, observed=P)
                 nbad += 1
-        rec.case(json.dumps([model, list(cats), x, t1, list(ds), vform, tail]), P, outcome=(model, K, tail, not out))
+        if ev:
+            rec.case(json.dumps([model, list(cats), x, t1, list(ds), vform, tail, ev]), P, outcome=(model, K, tail, not out, ev))
+        else:
+            rec.case(json.dumps([model, list(cats), x, t1, list(ds), vform, tail]), P, outcome=(model, K, tail, not out))
     return nbad
 
 
@@ -1697,6 +1763,24 @@ def _part_ordered(task, alph, rec):
         for vform in ('var', 'scaled'):
             check_ordered(model, cats, xs, t1, ds, rec, vform)
     rec.sample(dict(part='ordered', model=model, categories=cats, points=len(ordered_points(alph, K, task['tier'])), xs=xs))
+
+
+def _part_ordered_nodb(task, alph, rec):
+    """ordered models on formulas without data variables: Expression.get_value (ordered_logit; the Python evaluator has no
+    normal CDF - bioNormalCdf.get_value is not implemented -, ordered_probit is counted as skipped there) and
+    Expression.get_value_c() without a database (both)."""
+    K, ev = task['K'], task['ev']
+    cats = alph['cats'][:K]
+    pts = ordered_points(alph, K, task['tier'])
+    if task['tier'] == 'quick' and ev == 'c0':
+        pts = pts[int(task['seed']) % 3::3]
+    for model in ('ordered_logit', 'ordered_probit'):
+        if ev == 'py' and model == 'ordered_probit':
+            rec.count('skipped_python_evaluator_has_no_normal_cdf', len(pts) * len(alph['xs']))
+            continue
+        for pi, (t1, ds) in enumerate(pts):
+            check_ordered(model, cats, alph['xs'], t1, ds, rec, ('var', 'scaled')[pi % 2], ev=ev)
+    rec.sample(dict(part='ordered_nodb', evaluator=EVALUATOR_NAMES[ev], categories=cats, points=len(pts), xs=alph['xs']))
 
 
 def _part_ordered_tail(task, alph, rec):
@@ -1714,7 +1798,8 @@ def _part_ordered_tail(task, alph, rec):
 def replay(case):
     rec = Rec()
     if case['part'] == 'ordered':
-        check_ordered(case['model'], case['cats'], case['xs'], case['t1'], case['ds'], rec, case['vform'], case.get('tail', False))
+        check_ordered(case['model'], case['cats'], case['xs'], case['t1'], case['ds'], rec, case['vform'], case.get('tail', False),
+                      ev=case.get('ev'))
         return rec.violations
     if case['part'] == 'hist':
         h = case['hist']
